@@ -256,7 +256,9 @@ func txSubRawSetup(s *rt.Sim, tier string) func() {
 			return []txsubmission.TxIdAndSize{{TxId: txsubmission.TxId{EraId: 5, TxId: [32]byte{1}}, Size: 10}}, nil
 		}
 		cCfg := txsubmission.NewConfig(txsubmission.WithRequestTxIdsFunc(reqIds),
-			txsubmission.WithRequestTxsFunc(func(txsubmission.CallbackContext, []txsubmission.TxId) ([]txsubmission.TxBody, error) { return nil, nil }))
+			txsubmission.WithRequestTxsFunc(func(txsubmission.CallbackContext, []txsubmission.TxId) ([]txsubmission.TxBody, error) {
+				return nil, nil
+			}))
 		co := connOpts{ntn: true, magic: 42}
 		peer := newRawPeer(pair.B)
 		var conn *ouroboros.Connection
